@@ -35,13 +35,23 @@ QUICK = [True]
 TIER_QUICK = [True]
 
 
+def old_style(u):
+    """What unpickling a pickle written by an old yarl release does: the 'default style' state (None, {'_val': SplitResult, '_cache': ...})."""
+    from urllib.parse import SplitResult
+    o = object.__new__(type(u))
+    o.__setstate__((None, {"_val": SplitResult(*u.__getstate__()[0]), "_cache": {"host": "stale.example", "raw_path": "/stale"}}))
+    return o
+
+
 def twins(u):
     t = [("pickle", pickle.loads(pickle.dumps(u)))]
     if not QUICK[0]:
-        t += [("copy", copy.copy(u)), ("deepcopy", copy.deepcopy(u)), ("pickle-proto2", pickle.loads(pickle.dumps(u, protocol=2)))]
+        t += [("copy", copy.copy(u)), ("deepcopy", copy.deepcopy(u)), ("pickle-proto2", pickle.loads(pickle.dumps(u, protocol=2))),
+              ("old-style pickle state", old_style(u))]
     else:
         # the quick tier checks that copy/deepcopy/protocol-2 twins carry the same stored state and compare equal, without a full observation
-        for kind, c in (("copy", copy.copy(u)), ("deepcopy", copy.deepcopy(u)), ("pickle-proto2", pickle.loads(pickle.dumps(u, protocol=2)))):
+        for kind, c in (("copy", copy.copy(u)), ("deepcopy", copy.deepcopy(u)), ("pickle-proto2", pickle.loads(pickle.dumps(u, protocol=2))),
+                        ("old-style pickle state", old_style(u))):
             if tuple(c.__getstate__()[0]) != tuple(u.__getstate__()[0]) or c._cache.get("raw_host", None) is not None and False:
                 t.append((kind, c))
             elif c._cache:
